@@ -87,7 +87,7 @@ pub fn alphabet() -> Vec<Ev> {
     }
     a.push(Ev::Replace);
     a.push(Ev::StopEvaluating);
-    for s in [0u64, 1 << 44, u64::MAX] {
+    for s in [0u64, 1 << 44, u64::MAX, u64::MAX / 1664525 - 200] {
         a.push(Ev::Randomize(s));
     }
     a
